@@ -380,6 +380,8 @@ class Gen:
         return Fraction(self.rng.randrange(-16, 17), self.rng.choice([1, 1, 2, 4]))
 
     def positions(self, n):
+        if n == 0:
+            return []
         x = Fraction(self.rng.randrange(-8, 9), self.rng.choice([1, 2]))
         out = [x]
         for _ in range(n - 1):
@@ -414,6 +416,8 @@ class Gen:
         if r < 0.6:
             sc = lambda: ("f", Fraction(self.rng.choice([1, 2, 3, 1]), self.rng.choice([1, 2])))  # noqa: E731
             return ("scale", self.grid_expr(gvars, ivars, shape, depth - 1), sc(), sc())
+        if nx == 0 or ny == 0:
+            return ("from", self.positions(nx), self.positions(ny))
         # views of something bigger
         big = [(g, s) for g, s in gvars.items() if s[0] >= nx and s[1] >= ny]
         zs = [(z, s) for z, s in self.zones.items() if s[0] >= nx and s[1] >= ny]
@@ -450,6 +454,8 @@ class Gen:
             b = self.rng.choice([None, n, max(n - 1, 0), -1])
             c = self.rng.choice([None, None, 1, 2])
             return ("sl", a, b, c)
+        if self.rng.random() < 0.08:
+            return ("li", [])          # an empty index list selects no tone on this axis
         k = self.rng.randrange(1, max(n, 1) + 1)
         idx = sorted(self.rng.sample(range(max(n, 1)), min(k, max(n, 1))))
         out = [("i", i) for i in idx]
@@ -472,8 +478,10 @@ class Gen:
                 state["set"] = True
             elif r < 0.40:
                 g = self.grid_expr(gvars, ivars, shape)
-                if self.rng.random() < 0.04:   # deliberate shape change
-                    g = self.grid_expr(gvars, ivars, (shape[0] + 1, shape[1]), depth=1)
+                if self.rng.random() < 0.06:   # deliberate shape change (also to/from an empty axis)
+                    other = self.rng.choice([(shape[0] + 1, shape[1]), (max(shape[0] - 1, 0), shape[1]),
+                                             (shape[0], max(shape[1] - 1, 0))])
+                    g = self.grid_expr(gvars, ivars, other, depth=1)
                 out.append(("move", g))
             elif r < 0.62:
                 out.append(("turn", self.rng.random() < 0.5, self.selector(svars, ivars, shape[0]),
@@ -498,6 +506,9 @@ class Gen:
                 out.append(("iassign", cv, ("i", 0)))
                 out.append(("for", v, start, stop, [("iassign", cv, ("add", ("v", cv), ("i", 1)))] + inner))
                 ivars = ivars + [cv]
+            elif r < 0.835 and state["set"]:
+                # a source-level assert (fails for some arguments): a non-AOD failure kind
+                out.append(("assert", self.cond(ivars, bvars)))
             elif r < 0.88:
                 name = f"g{len(gvars)}_{self.rng.randrange(100)}"
                 if name not in gvars:
@@ -554,6 +565,8 @@ class Gen:
 
     def program(self):
         shape = (self.rng.randrange(1, 4), self.rng.randrange(1, 4))
+        if self.rng.random() < 0.06:   # a grid that is empty along one axis
+            shape = (0, shape[1]) if self.rng.random() < 0.5 else (shape[0], 0)
         helpers = []
         for i in range(self.rng.choice([0, 0, 1, 2])):
             helpers.append(self.kernel(f"helper{i}", shape, helpers[:], True))
@@ -575,7 +588,7 @@ class Gen:
                 if want_slice:
                     wire.append(("sl", self.rng.choice([None, 0]), self.rng.choice([None, 1, 2]), self.rng.choice([None, 1])))
                 else:
-                    k = self.rng.randrange(1, 3)
+                    k = self.rng.randrange(0 if self.rng.random() < 0.1 else 1, 3)
                     wire.append(("li",) + tuple(sorted(self.rng.sample(range(3), k))))
         return wire
 
@@ -699,3 +712,35 @@ def detuple(x):
 
 def norm_result(s):
     return "err" if s.startswith("err") else s
+
+
+# --------------------------------------------------------------------------- corpus: hand-picked / minimised past failures
+G = ("g", "grid", "grid.Grid[Any, Any]")
+CORPUS = [
+    # F1: index lists of different lengths through typed arguments
+    {"kernels": [{"name": "main", "params": [G, ("s0", "sel", "ilist.IList[int, Any]"), ("s1", "sel", "ilist.IList[int, Any]")],
+                  "body": [("set", ("gv", "g")), ("turn", True, ("sv", "s0"), ("sv", "s1")),
+                           ("turn", False, ("li", [("i", 0), ("i", 1)]), ("li", [("i", 1)]))]}],
+     "args": [("from", [0, 1], [0, 1]), ("li", 0, 1), ("li", 0)]},
+    # F1: slice through untyped arguments
+    {"kernels": [{"name": "main", "params": [G, ("s0", "sel", None), ("s1", "sel", None)],
+                  "body": [("set", ("gv", "g")), ("turn", True, ("sv", "s0"), ("sv", "s1")),
+                           ("move", ("shift", ("gv", "g"), ("f", 1), ("f", 0))), ("turn", False, ("sv", "s0"), ("sv", "s1"))]}],
+     "args": [("from", [0, 1], [0, 1]), ("sl", None, None, None), ("li", 0, 1)]},
+    {"kernels": [{"name": "main", "params": [G], "body": [("move", ("gv", "g"))]}], "args": [("from", [0, 1], [0])]},
+    {"kernels": [{"name": "main", "params": [G], "body": [("turn", True, ("ALL",), ("ALL",))]}], "args": [("from", [0, 1], [0])]},
+    {"kernels": [{"name": "main", "params": [G], "body": [("set", ("gv", "g")), ("move", ("from", [0, 1, 2], [0]))]}],
+     "args": [("from", [0, 1], [0])]},
+    # shape (1, n) vs (0, n): an empty axis is a different shape (mutant C11/B)
+    {"kernels": [{"name": "main", "params": [G], "body": [("set", ("gv", "g")), ("move", ("from", [], [0, 1]))]}],
+     "args": [("from", [3], [0, 1])]},
+    {"kernels": [{"name": "main", "params": [G], "body": [("set", ("from", [0], [])), ("move", ("gv", "g"))]}],
+     "args": [("from", [0], [5])]},
+    # empty index list on one axis; move to the current position; set_loc right after a switch
+    {"kernels": [{"name": "main", "params": [G], "body": [("set", ("gv", "g")), ("turn", True, ("ALL",), ("li", [("i", 0)])),
+                                                          ("turn", True, ("li", []), ("li", [("i", 1)])), ("move", ("gv", "g")),
+                                                          ("move", ("gv", "g")), ("turn", False, ("ALL",), ("ALL",)),
+                                                          ("set", ("shift", ("gv", "g"), ("f", 2), ("f", 0))),
+                                                          ("turn", True, ("li", [("i", 0)]), ("ALL",))]}],
+     "args": [("from", [0, 1], [0, 1])]},
+]
